@@ -620,6 +620,13 @@ func (a *Agent) gatherCandidatesLocalUDPMux(ctx context.Context) error { //nolin
 		}
 
 		for _, candidateIP := range candidateIPs {
+			// The mux listens on whatever it was given: skip the addresses whose network type
+			// (UDP + family of the address) is not enabled.
+			if ip, ok := netip.AddrFromSlice(candidateIP); ok &&
+				!hostNetworkTypeEnabled(configuredNetworkTypes(a.networkTypes), udp, ip) {
+				continue
+			}
+
 			var address string
 			var isLocationTracked bool
 			if a.mDNSMode == MulticastDNSModeQueryAndGather {
